@@ -411,6 +411,8 @@ def check_routes(ctx, lst, ref, cmp_, vk):
 
     def judge(route):
         j = lst.index
+        if isinstance(j, (int, np.integer)) and -N <= j < 0:
+            j += N            # a negative index left as it is names the same result set (its being reported so is C07's matter)
         if not isinstance(j, (int, np.integer)) or not (0 <= j < N):
             return
         ctx.count('route_landings')
